@@ -383,6 +383,16 @@ func (rm *ResponseManager) startTask(task *peertask.Task, p peer.ID) queryexecut
 	return taskData
 }
 
+// ownedBy reports whether the response now registered under requestID is the one owner
+// subscribes for (no owner: whichever response has the ID).
+func (rm *ResponseManager) ownedBy(requestID graphsync.RequestID, owner *subscriber) bool {
+	if owner == nil {
+		return true
+	}
+	response, ok := rm.inProgressResponses[requestID]
+	return ok && response.subscriber == owner
+}
+
 func (rm *ResponseManager) terminateRequest(requestID graphsync.RequestID) {
 	ipr, ok := rm.inProgressResponses[requestID]
 	if !ok {
